@@ -231,7 +231,7 @@ Definition read_rule_ok (r : Z) : Prop := forall c s1 t s v st',
   d_check_read (dcfg_of_cfg c) (trace step (init_of c) s1) s v <> r.
 (* rule r (9, 10) is never reported at a quiescent point *)
 Definition quiet_rule_ok (r : Z) : Prop := forall c s1 s,
-  cfg_wf c = true -> Disc c s1 -> quiescent step thrs stim (run step (init_of c) s1) = true ->
+  cfg_wf c = true -> Disc c s1 -> quiescent step thrs stim (run step (init_of c) s1) = true -> (s < length (c_subs c))%nat ->
   d_check_quiet (dcfg_of_cfg c) (trace step (init_of c) s1) s <> r.
 
 (* the monitor's verdict is "accepted", or names a rule of the list M *)
@@ -249,10 +249,10 @@ Proof.
   repeat match goal with |- context[if ?x then _ else _] => destruct x end; cbn; tauto.
 Qed.
 
-Lemma first_bad_some : forall f l x r, first_bad f l = Some (x, r) -> r = f x /\ r <> 0.
+Lemma first_bad_some : forall f l x r, first_bad f l = Some (x, r) -> r = f x /\ r <> 0 /\ In x l.
 Proof.
   induction l as [|y l IH]; intros x r H; cbn in H; [discriminate|].
-  destruct (f y =? 0) eqn:E; [apply IH, H|]. inversion H; subst. split; [reflexivity|]. apply Z.eqb_neq, E.
+  destruct (f y =? 0) eqn:E; [destruct (IH _ _ H) as [A [B C]]; repeat split; auto; right; exact C|]. inversion H; subst. split; [reflexivity|]. split; [apply Z.eqb_neq, E|left; reflexivity].
 Qed.
 
 Section ASM.
@@ -266,10 +266,11 @@ Section ASM.
   Proof.
     intros c s1 W D Q. unfold d_quiet_point.
     destruct (first_bad _ _) as [[s r]|] eqn:F.
-    - destruct (first_bad_some _ _ _ _ F) as [Er Nz]. right. exists r, [Z.of_nat (length (trace step (init_of c) s1)); Z.of_nat s].
+    - destruct (first_bad_some _ _ _ _ F) as [Er [Nz Hin]]. right. exists r, [Z.of_nat (length (trace step (init_of c) s1)); Z.of_nat s].
       split; [reflexivity|]. destruct (in_dec Z.eq_dec r M) as [I|N]; [exact I|exfalso].
       pose proof (d_check_quiet_range (dcfg_of_cfg c) (trace step (init_of c) s1) s) as Rg. rewrite <- Er in Rg.
-      destruct Rg as [X|Rg]; [congruence|]. apply (HQ r Rg N c s1 s W D Q). symmetry. exact Er.
+      destruct Rg as [X|Rg]; [congruence|]. apply (HQ r Rg N c s1 s W D Q); [|symmetry; exact Er].
+      apply in_seq in Hin. unfold dcfg_of_cfg in Hin. cbn in Hin. rewrite map_length in Hin. lia.
     - rewrite <- dcfg_init. rewrite (quiet_rule13 _ _ s1 (cfg_wf_init c W) Q). left. reflexivity.
   Qed.
 
